@@ -214,7 +214,16 @@ class HistoryRun:
                     pass
         overrides = {}
         universe = initial_universe(self.st)
-        touched = set(_expand(self.st, self.cfg.get('pre', [])))
+        # cells the reference itself cannot evaluate are not evaluated before the save either
+        self.pre_skip = set()
+        if self.cfg.get('origin') in SERIAL:
+            for a in self.cfg.get('pre', []):
+                try:
+                    ref.value(a, {})
+                except RefError:
+                    self.pre_skip.add(a)
+        touched = set(_expand(self.st, [a for a in self.cfg.get('pre', [])
+                                        if a not in self.pre_skip]))
         for i, op in enumerate(ops):
             if op['op'] == 'eval':
                 target = op.get('rng') if op.get('form') == 'range' else op['a']
@@ -251,6 +260,9 @@ class HistoryRun:
         driver.build_nodata(spec, cycles=self.cfg.get('cycles'))
         if origin in SERIAL:
             for a in self.cfg.get('pre', []):
+                if a in self.pre_skip:
+                    self.count('probe:ref-raised-step-skipped')
+                    continue
                 out = driver.step({'op': 'eval', 'a': a, 'rng': a,
                                    'form': 'range' if ':' in a else 'cell'})
                 if 'exc' in out:
@@ -270,6 +282,12 @@ class HistoryRun:
         ops = list(self.case.get('ops', []))
         self.expected, self.stored, self.sweep_items = on_fresh_thread(
             self.plan_expected, ops, sweep, name='ref')
+        if self.pre_skip:
+            # the reference cannot evaluate what this history evaluates before its first
+            # save (a formula that raises in pycel's function library): the saved model
+            # would not hold what the rest of the history was planned on
+            self.count('probe:run-skipped-reference-raises-before-first-save')
+            return self.finish()
         with TmpDir() as tmp:
             driver = Driver(tmp, plugins=self.plugins or ('sim.plugin',), inline=True)
             self.driver = driver
